@@ -35,12 +35,9 @@ def lookupI (k : String) : List (String × Int) → Option Int
   | [] => none
   | (k', v) :: t => if k = k' then some v else lookupI k t
 
-/-- name of a known deviation of the unchanged tree from the documentation (for the finding's signature) -/
-def devToken (routine kind : String) (info doc : Int) (a : Args) : String :=
-  if routine = "gssvx" ∧ info = -14 ∧ (doc = -12 ∨ doc = -13) then "DEV-gssvx-X-test-not-chained"
-  else if routine = "gssvx" ∧ info ≥ 0 ∧ (doc = -13 ∨ doc = -14) ∧ (a.B_ncol = 0 ∨ a.X_ncol = 0) then "DEV-gssvx-ncol0-unchecked"
-  else if routine = "sp_trsv" ∧ kind = "lowercase" ∧ info < 0 then "DEV-sp_trsv-lowercase-rejected"
-  else if (routine = "sp_trsv" ∨ routine = "sp_gemv") ∧ kind = "unscreened-tag" ∧ info = 0 then s!"DEV-{routine}-tags-unchecked"
+/-- name of a known deviation of the tree from the documentation (gives the finding a stable signature) -/
+def devToken (routine kind : String) (info : Int) : String :=
+  if (routine = "sp_trsv" ∨ routine = "sp_gemv") ∧ kind = "unscreened-tag" ∧ info = 0 then s!"DEV-{routine}-tags-unchecked"
   else "UNEXPECTED"
 
 def siteOf (cls : String) : String := (cls.splitOn "=").head!
@@ -74,14 +71,14 @@ def handle (c : Case) : Res :=
     let head := s!"{fn} {cls}" ++ (if ncorr = 2 then s!" + {c.p "class2"}" else "")
     firstFail [
       -- the oracle must agree with what the harness did (single corruption: the corrupted argument's position)
-      fun _ => if ncorr = 1 ∧ doc ≠ -pos then
+      fun _ => if ncorr = 1 ∧ kind ≠ "ncol0-tags" ∧ doc ≠ -pos then
           some (Res.corr s!"ORACLE {head}: documented spec gives {doc} but the harness corrupted argument {pos}" tags) else none,
-      fun _ => if ncorr = 0 ∧ doc ≠ 0 then
+      fun _ => if (ncorr = 0 ∨ kind = "ncol0-tags") ∧ doc ≠ 0 then
           some (Res.corr s!"ORACLE {head}: documented spec gives {doc} for a call the harness built as valid" tags) else none,
       -- Prop
       fun _ => if aborted then some (Res.propFalse s!"[ABORT] {head}: the library called ABORT (documented info {doc})" tags) else none,
       fun _ => if info ≠ doc then
-          some (Res.propFalse s!"[{devToken routine kind info doc a}] {head}: info={info} documented={doc} chain={chain}" tags) else none,
+          some (Res.propFalse s!"[{devToken routine kind info}] {head}: info={info} documented={doc} chain={chain}" tags) else none,
       fun _ => if doc < 0 ∧ changed ≠ "none" ∧ !(equedPrewrite ∧ !strictEq) then
           some (Res.propFalse s!"[MODIFIED] {head}: rejected with info={info} but caller objects changed: {changed}" tags) else none,
       fun _ => if doc < 0 ∧ live ≠ 0 then
